@@ -406,7 +406,28 @@ type snapEntry struct {
 	info fs.FileInfo
 }
 
+// snapshotEntries walks the tree through the administrator's view. A call that returned but left a node lock held
+// (a leak on an error path) would block this walk for ever: the walk runs under a watchdog and a blocked walk yields the
+// single pseudo entry "!HANG", which no model snapshot contains - the call before it is then reported as a mismatch.
 func (w *fsWorld) snapshotEntries() []snapEntry {
+	ch := make(chan []snapEntry, 1)
+	go func() {
+		defer func() {
+			if r := recover(); r != nil {
+				ch <- []snapEntry{{path: "!PANIC", kind: 'F', line: "F !PANIC-in-snapshot"}}
+			}
+		}()
+		ch <- w.snapshotEntriesRaw()
+	}()
+	select {
+	case es := <-ch:
+		return es
+	case <-time.After(5 * time.Second):
+		return []snapEntry{{path: "!HANG", kind: 'F', line: "F !HANG a lock is still held after the previous call returned"}}
+	}
+}
+
+func (w *fsWorld) snapshotEntriesRaw() []snapEntry {
 	var out []snapEntry
 	var files []fs.FileInfo
 	b := w.base
